@@ -282,16 +282,17 @@ def check(run):
     core.build_jet()
 
     # M: spec-level properties over all combinations of parts (each one a state)
-    m = core.tlc_ok("mc/MC_Source", env=UTF8, xmx="3g", timeout=900)
-    run.add_tlc(m)
+    # (runs in the background while G and the replay proceed; joined before V)
+    pool = cf.ThreadPoolExecutor(max_workers=1)
+    m_fut = pool.submit(core.tlc_ok, "mc/MC_Source", env=UTF8, xmx="3g", timeout=900)
 
     # G: all combinations, rendered by the spec
     g = core.tlc_ok("gen/Gen_Source", env=UTF8, xmx="3g", timeout=900)
     vectors = g.printed_json()
     gen = [v for v in vectors if v.get("k") == "gen"]
     refs = [v for v in vectors if v.get("k") == "ref"]
-    if len(gen) != m.distinct or not refs:
-        raise core.ToolError(f"G printed {len(gen)} combinations, M explored {m.distinct}")
+    if not gen or not refs:
+        raise core.ToolError("G printed no vectors")
 
     # data binding: the crate's AIRPORTS table (for the sweep over ICAO codes)
     dump, _ = core.run_jet([{"cmd": "source", "dump_airports": True}])
@@ -301,7 +302,7 @@ def check(run):
     codes = [a[0] for a in table if re.fullmatch(r"[A-Z0-9]{4}", a[0] or "")]
     skipped_codes = len(table) - len(codes)
     if not thorough:
-        codes = rng.sample(codes, min(1200, len(codes)))
+        codes = rng.sample(codes, min(800, len(codes)))
     templates = [v for v in gen if v["wf"] and v["p"]["ref"]["class"] == "airport"
                  and v["p"]["ref"]["text"] == "LFBO"]
     templates.sort(key=lambda v: v["s"])
@@ -317,7 +318,7 @@ def check(run):
 
     # exploration: mutated and random strings (seeded)
     base = [v["s"] for v in gen] + DOC
-    muts = [{"k": "mut", "s": s} for s in mutations(rng, base, 150000 if thorough else 5000)]
+    muts = [{"k": "mut", "s": s} for s in mutations(rng, base, 150000 if thorough else 3000)]
 
     vectors = gen + refs + apt + muts
     events, n_calls = replay_vectors(vectors, nproc)
@@ -325,6 +326,11 @@ def check(run):
     trace = os.path.join(run.work, "trace.ndjson")
     core.write_ndjson(trace, events)
 
+    m = m_fut.result()
+    pool.shutdown()
+    run.add_tlc(m)
+    if len(gen) != m.distinct:
+        raise core.ToolError(f"G printed {len(gen)} combinations, M explored {m.distinct}")
     rejected, r = core.validate("trace/Trace_Source", trace, n_events=len(events), env=UTF8,
                                 xmx="3g", timeout=1800)
     run.add_tlc(r)
